@@ -6,9 +6,17 @@
 //!   (b) every string of length <= 4 over the alphabet `%(.*0-+ #dsxg)k5` (parse outcome; the
 //!       ones of length <= 3 are also formatted in three argument modes),
 //!   (c) argument-count / `*` / object-mode / multi-code cases, seeded random format strings.
-//! Numbers travel as exact decimal strings of floor|v| plus sign/fraction bits; the double ->
-//! decimal pipeline of render_float (mul_add/floor/%/log10/powf) is recomputed here and sent as
-//! the "digit oracle" (the Lean model does not model floating point).
+//!   (d) integer conversions beyond i64, the float precision limit, %c of odd numbers,
+//!   (e) float digits: boundary-heavy doubles (powers of two and ten with neighbours, subnormals,
+//!       max finite, exact ties at every precision 0..20 with neighbours, random bit patterns)
+//!       x e/E/f/F/g/G x precisions x flag/width forms through std_format, and — op `fmt.digits`
+//!       — Rust's float formatting itself against the Lean exact reference (the assumption under
+//!       which the float theorems hold).
+//! Numbers travel as IEEE bit patterns (the Lean side decodes them to the exact value).  The
+//! repaired format.rs delegates digit generation to Rust's float formatting
+//! (`format!("{:.*}", p, x.abs())`, `format!("{:.*e}", p, x.abs())`); the Lean model takes the
+//! returned texts as parameters, so they are produced here with the very same calls and sent
+//! along (`fix` / `sci`).
 use jrsonnet_evaluator::{
 	error::ErrorKind,
 	stdlib::{
@@ -26,37 +34,45 @@ fn cps(s: &str) -> Vec<u32> {
 	s.chars().map(|c| c as u32).collect()
 }
 
-/// exact decimal text of an integer-valued non-negative double (`integer_digits` expands every
-/// finite double exactly; non-finite intermediate results are not reachable for the precisions
-/// and values explored here and are mapped to placeholders)
-fn exact(x: f64) -> String {
-	if x.is_nan() {
-		"0".to_owned()
-	} else if x.is_infinite() {
-		"0".to_owned()
-	} else {
-		format!("{x:.0}")
+/// what `float_digits(n, p)` of format.rs evaluates: Rust's float formatting, fixed notation
+fn rust_fixed(x: f64, p: u16) -> String {
+	format!("{:.*}", usize::from(p), x.abs())
+}
+
+/// what `float_sci_digits(n, p)` of format.rs evaluates before splitting: scientific notation
+fn rust_sci(x: f64, p: u16) -> String {
+	format!("{:.*e}", usize::from(p), x.abs())
+}
+
+/// decimal exponent of |x| rounded to p+1 significant digits (as the `%g` arm obtains it)
+fn sci_exp(x: f64, p: u16) -> i32 {
+	let t = rust_sci(x, p);
+	t.split_once('e').and_then(|(_, e)| e.parse().ok()).unwrap_or(0)
+}
+
+/// largest float precision format_code lets through
+const MAX_FPPREC: u16 = 308;
+
+/// the precisions at which format_code can ask for a text of `x` when the code's precision is one
+/// of `precs`: p itself (e, f), max(p,1)-1 (g, exponent form and form selection), and
+/// max(p,1) - digits_before_pt (g, fixed form)
+fn expand_precs(x: f64, precs: &[u16]) -> Vec<u16> {
+	let mut v = vec![];
+	for &p in precs {
+		if p > MAX_FPPREC {
+			continue;
+		}
+		let pg = p.max(1);
+		v.push(p);
+		v.push(pg - 1);
+		let e = sci_exp(x, pg - 1);
+		if e >= 0 && e < i32::from(pg) {
+			v.push(pg - (e as u16 + 1));
+		}
 	}
-}
-
-/// the digit pipeline of `render_float` for (n, precision)
-fn dig(n: f64, precision: u16) -> (String, String) {
-	let denominator = 10.0f64.powi(i32::from(precision));
-	let numerator = n.abs().mul_add(denominator, 0.5);
-	let whole = (numerator / denominator).floor();
-	let frac = numerator.floor() % denominator;
-	(exact(whole), exact(frac))
-}
-
-/// exponent and mantissa of `render_float_sci`
-fn exp_mant(n: f64) -> (f64, f64) {
-	let exponent = if n == 0.0 { 0.0 } else { n.abs().log10().floor() };
-	let mantissa = if exponent as i16 == -324 {
-		n * 10.0 / 10.0_f64.powf(exponent + 1.0)
-	} else {
-		n / 10.0_f64.powf(exponent)
-	};
-	(exponent, mantissa)
+	v.sort_unstable();
+	v.dedup();
+	v
 }
 
 #[derive(Clone)]
@@ -87,18 +103,11 @@ fn describe(v: &Val, precs: &[u16]) -> Value {
 	match v {
 		Val::Num(n) => {
 			let x = n.get();
-			let a = x.abs();
-			let (e, m) = exp_mant(x);
-			let mut fix = vec![];
-			let mut sci = vec![];
-			for p in precs {
-				let (w, f) = dig(x, *p);
-				fix.push(json!([p, w, f]));
-				let (w, f) = dig(m, *p);
-				sci.push(json!([p, w, f]));
-			}
-			json!({"k":"num","neg": x < 0.0,"whole": exact(a.floor()),"frac": a.fract() != 0.0,
-				"exp": e as i64,"fix":fix,"sci":sci,"disp":disp(v),"_bits":format!("{:016x}", x.to_bits())})
+			let ps = expand_precs(x, precs);
+			let fix: Vec<Value> = ps.iter().map(|p| json!([p, rust_fixed(x, *p)])).collect();
+			let sci: Vec<Value> = ps.iter().map(|p| json!([p, rust_sci(x, *p)])).collect();
+			json!({"k":"num","bits":format!("{:016x}", x.to_bits()),"fix":fix,"sci":sci,"disp":disp(v),
+				"_bits":format!("{:016x}", x.to_bits())})
 		}
 		Val::Str(s) => json!({"k":"str","s":cps(&s.clone().into_flat())}),
 		Val::Obj(o) => {
@@ -151,21 +160,12 @@ fn answer(r: Result<jrsonnet_evaluator::Result<String>, String>) -> Value {
 	}
 }
 
-/// float precisions that `format_code` can ask the digit pipeline for, given the code's precision
+/// the code's float precision for a case (describe() derives the precisions actually needed)
 fn needed_precs(prec: Option<u16>, x: Option<f64>) -> Vec<u16> {
-	let Some(x) = x else { return vec![] };
-	let p = prec.unwrap_or(6);
-	let pg = p.max(1);
-	let (e, _) = exp_mant(x);
-	let mut v = vec![p, pg - 1];
-	if e >= 0.0 && e < f64::from(pg) {
-		v.push(pg - 1u16.max(e as u16 + 1));
-	} else {
-		v.push(pg - 1);
+	if x.is_none() {
+		return vec![];
 	}
-	v.sort_unstable();
-	v.dedup();
-	v
+	vec![prec.unwrap_or(6)]
 }
 
 struct Ctx<'a> {
@@ -178,6 +178,10 @@ struct Ctx<'a> {
 impl Ctx<'_> {
 	fn bump(&mut self, k: &str) {
 		*self.hist.entry(k.to_owned()).or_default() += 1;
+	}
+
+	fn bump_n(&mut self, k: &str, n: usize) {
+		*self.hist.entry(k.to_owned()).or_default() += n;
 	}
 
 	/// one case in array/single mode. `precs`: oracle precisions for numeric values
@@ -523,9 +527,8 @@ pub fn run(opts: &Opts) {
 					if pr != ".*" && star != "309" {
 						continue;
 					}
-					// precision 308 itself is only explored with the value 0 (10^308 * v must stay finite)
-					let zero = numv("0");
-					let (val, p): (&V, u16) = if pr == ".308" || (pr == ".*" && star == "308") { (&zero, 308) } else { (v, 6) };
+					// precision 308 is the largest one accepted: rendered for the value itself
+					let (val, p): (&V, u16) = if pr == ".308" || (pr == ".*" && star == "308") { (v, 308) } else { (v, 6) };
 					let fmt = format!("%{pr}{cv}|");
 					let mut args: Vec<V> = vec![];
 					if pr == ".*" {
@@ -602,6 +605,152 @@ pub fn run(opts: &Opts) {
 		n_reach += 1;
 	}
 
+	// ---- (f) float digits: boundary-heavy doubles ---------------------------------------------------
+	let mut doubles: Vec<(f64, &'static str)> = vec![];
+	{
+		let mut push = |x: f64, k: &'static str| {
+			if x.is_finite() {
+				doubles.push((x, k));
+			}
+		};
+		let nb = |x: f64, d: i64| f64::from_bits((x.to_bits() as i64 + d) as u64);
+		// powers of two with neighbours (every exponent in the thorough tier)
+		let step2 = if thorough { 1 } else { 13 };
+		let mut k = -1074i32;
+		while k <= 1023 {
+			let x = if k >= -1022 { f64::from_bits(((k + 1023) as u64) << 52) } else { f64::from_bits(1u64 << (k + 1074)) };
+			push(x, "pow2");
+			if x.to_bits() > 1 {
+				push(nb(x, -1), "pow2-");
+			}
+			push(nb(x, 1), "pow2+");
+			k += step2;
+		}
+		for k in [-1074, -1073, -1023, -1022, -1021, -54, -53, -52, -1, 0, 1, 2, 3, 10, 52, 53, 54, 63, 64, 69, 70, 1022, 1023] {
+			let x = if k >= -1022 { f64::from_bits(((k + 1023) as u64) << 52) } else { f64::from_bits(1u64 << (k + 1074)) };
+			push(x, "pow2");
+			if x.to_bits() > 1 {
+				push(nb(x, -1), "pow2-");
+			}
+			push(nb(x, 1), "pow2+");
+		}
+		// powers of ten with neighbours: the decimal exponent changes here
+		let step10 = if thorough { 1 } else { 7 };
+		let mut k = -323i32;
+		while k <= 308 {
+			if let Ok(x) = format!("1e{k}").parse::<f64>() {
+				push(x, "pow10");
+				push(nb(x, -1), "pow10-");
+				push(nb(x, 1), "pow10+");
+				push(nb(x, -2), "pow10-");
+			}
+			k += step10;
+		}
+		for k in [-324, -323, -308, -307, -5, -4, -3, -1, 0, 1, 5, 6, 7, 15, 16, 17, 21, 22, 23, 100, 307, 308] {
+			if let Ok(x) = format!("1e{k}").parse::<f64>() {
+				push(x, "pow10");
+				push(nb(x, -1), "pow10-");
+				push(nb(x, 1), "pow10+");
+			}
+			// 9.99..e(k-1): rounding carries into the next decimal exponent
+			if let Ok(x) = format!("9.9999995e{k}").parse::<f64>() {
+				push(x, "carry");
+			}
+			if let Ok(x) = format!("9.5e{k}").parse::<f64>() {
+				push(x, "carry");
+			}
+		}
+		// subnormals, extremes, zeros
+		for b in [0u64, 1, 2, 3, 0x000f_ffff_ffff_ffff, 0x0010_0000_0000_0000, 0x0010_0000_0000_0001, 0x7fef_ffff_ffff_ffff, 0x7fef_ffff_ffff_fffe, 0x7fe0_0000_0000_0000, 0x8000_0000_0000_0000, 0x8000_0000_0000_0001, 0xffef_ffff_ffff_ffff] {
+			push(f64::from_bits(b), "extreme");
+		}
+		// exact ties of the fixed notation at precision p: t / 2^(p+1), t odd — with neighbours
+		for p in 0..=20u32 {
+			for t in [1u64, 3, 5, 7, 9, 11, 25, 1001, 1003] {
+				let x = t as f64 / (1u64 << (p + 1)) as f64;
+				push(x, "tie-fixed");
+				push(nb(x, -1), "tie-fixed-");
+				push(nb(x, 1), "tie-fixed+");
+			}
+			let t = (rng.next() % (1 << 30)) | 1;
+			push(t as f64 / (1u64 << (p + 1)) as f64, "tie-fixed");
+			push(-(t as f64) / (1u64 << (p + 1)) as f64, "tie-fixed");
+		}
+		// exact ties of the scientific notation: (2j+1) * 5 * 10^k as an exact integer double
+		for k in 0..=20u32 {
+			for j in [0u64, 1, 2, 3, 12, 62, 499, 4999] {
+				let m = (2 * j + 1) * 5;
+				let x = m as f64 * 10f64.powi(k as i32); // exact: m * 10^k < 2^53 * 5^22 is not needed, k <= 20 and m small
+				push(x, "tie-sci");
+				push(nb(x, -1), "tie-sci-");
+				push(nb(x, 1), "tie-sci+");
+			}
+		}
+		// ordinary numbers
+		for x in [0.1, 0.2, 0.3, 1.0 / 3.0, 2.0 / 3.0, 2.675, 1.005, 0.125, 0.375, 123456.789, 1e21, 1e22, 1e23, 0.49999999999999994, 0.5000000000000001,
+			999999.5, 99999.95, 9.9999995, 0.000123456789, 0.00009999995, 12345678.9, 1234567.0, 123456.0, 0.1 + 0.2, 5e-324, 4.35, 4.45, 8.5, 9.5, 10.5, 95.0, 99.5, -2.5, -0.0001, 3.0e-5] {
+			push(x, "ordinary");
+		}
+		// random bit patterns
+		let n_rand = if thorough { 4000 } else { 400 };
+		for _ in 0..n_rand {
+			let b = rng.next();
+			push(f64::from_bits(b), "random");
+			// random mantissa at a moderate exponent (the usual range of values)
+			let e = 1023 - 40 + (rng.next() % 120);
+			push(f64::from_bits((b & 0x800f_ffff_ffff_ffff) | (e << 52)), "random-mid");
+		}
+	}
+	// (e1) Rust's float formatting itself against the exact reference (the assumption of the theorems)
+	let digit_precs: Vec<u16> = (0..=20u16).chain([21, 30, 50, 100, 308]).collect();
+	let big_precs: [u16; 5] = [400, 767, 1074, 1075, 1100];
+	let mut n_digits = 0usize;
+	let mut dhist: std::collections::BTreeMap<&'static str, usize> = Default::default();
+	for (i, (x, kind)) in doubles.iter().enumerate() {
+		*dhist.entry(kind).or_default() += 1;
+		let few = !thorough && i % 3 != 0;
+		for &p in digit_precs.iter().chain(big_precs.iter()) {
+			if p > 20 && few {
+				continue;
+			}
+			if p > 308 && !thorough && i % 12 != 0 {
+				continue;
+			}
+			let bits = format!("{:016x}", x.to_bits());
+			cx.w.case(
+				json!({"op":"fmt.digits","bits":bits,"p":p,"size": 2 + usize::from(p),"_x":format!("{x:e}"),"_kind":kind}),
+				json!({"fix": rust_fixed(*x, p), "sci": rust_sci(*x, p), "neg": *x < 0.0}),
+			);
+			n_digits += 1;
+		}
+	}
+	cx.bump_n("fmt.digits", n_digits);
+	// (e2) the same doubles through std_format
+	let fl_forms = ["", "#", "0", "-", "+", " ", "#0", "+0", "-#", " 0#"];
+	let wp_forms: [(&str, Option<u16>); 12] = [("", None), (".0", Some(0)), (".1", Some(1)), (".2", Some(2)), ("12.3", Some(3)), (".5", Some(5)),
+		("30.10", Some(10)), (".15", Some(15)), (".17", Some(17)), ("40.20", Some(20)), (".40", Some(40)), ("330.308", Some(308))];
+	let mut n_fd = 0usize;
+	for (i, (x, kind)) in doubles.iter().enumerate() {
+		let src = if *x == 0.0 && x.is_sign_negative() { "-0".to_owned() } else { format!("{x:e}") };
+		let v = V { src, val: Val::Num(jrsonnet_evaluator::val::NumValue::new(*x).expect("finite")), num: Some(*x), kind: "float" };
+		for (ci, cv) in ['e', 'E', 'f', 'F', 'g', 'G'].iter().enumerate() {
+			for (wi, (wp, p)) in wp_forms.iter().enumerate() {
+				// every conversion x precision form; the flag form rotates, two per case in the thorough tier
+				let n_fl = if thorough { 2 } else { 1 };
+				for r in 0..n_fl {
+					if !thorough && (i + ci + wi) % 2 == 1 && p.map_or(false, |p| p > 20) {
+						continue;
+					}
+					let fl = fl_forms[(i + ci * 3 + wi * 7 + r * 5) % fl_forms.len()];
+					let fmt = format!("%{fl}{wp}{cv}|");
+					let np = needed_precs(*p, Some(*x));
+					cx.case(&format!("float-digits:{cv}:{kind}"), &fmt, "arr", &[v.clone()], &np, n_fd % 97 == 0, false);
+					n_fd += 1;
+				}
+			}
+		}
+	}
+
 	// seeded random format strings over a richer alphabet with 0..4 random values
 	let n_rand = if thorough { 60000 } else { 8000 };
 	let pool: Vec<V> = values.iter().chain(more.iter()).cloned().collect();
@@ -616,8 +765,9 @@ pub fn run(opts: &Opts) {
 
 	let meta = json!({
 		"engine":"c12","cases":cx.w.n,"cross_product":n_cross,"malformed_strings":n_mal,"via_evaluator":cx.n_eval,
-		"random":n_rand,"big_int":n_big,"reach_value_x_format":n_reach,"reach_vias":11,"hist":cx.hist,
-		"rule":"flags(2^5) x width{none,0,1,5,*} x precision{none,.0,.1,.3,.*} x 15 conversions x values (ints, fractions, negative, zero, 1e21, 1e-7, 2^53+1, strings ASCII/non-ASCII, array, object, null) through std_format (1 in 16 also through `%`, std.format and std.mod from source); every string of length <= 4 over `%(.*0-+ #dsxg)k5` parsed (length <= 3 also formatted in 3 argument modes); argument-count/star/object-mode/wide-field tables; integer conversions of 16 numbers beyond the i64 range x 6 conversions x 10 flag sets x 8 width/precision forms; float precisions 308/309/310/65535 (fixed and `*`); %c of negative / fractional / huge numbers; seeded random format strings; the parse of every enumerated string is compared field by field (Debug text of the elements); REACH: 41 bare right operands of every type (0, -0, 0.0, -0.0, (1-1), (0*-1), ints, negative, fractional, huge, strings, booleans, null, arrays, objects) x 42 format strings (two longer than 100 bytes) + seeded random code x value, each through eleven entry points that must agree: std_format(f, x), `f % x`, std.format(f, x), std.mod(f, x), `local f.., v..; f % v`, `(f) % (x)`, `(f1 + f2) % x` and the first four with x wrapped as [x]"
+		"random":n_rand,"big_int":n_big,"reach_value_x_format":n_reach,"reach_vias":11,"float_doubles":doubles.len(),"float_double_kinds":dhist,"rust_digit_checks":n_digits,
+		"float_digit_cases":n_fd,"hist":cx.hist,
+		"rule":"flags(2^5) x width{none,0,1,5,*} x precision{none,.0,.1,.3,.*} x 15 conversions x values (ints, fractions, negative, zero, 1e21, 1e-7, 2^53+1, strings ASCII/non-ASCII, array, object, null) through std_format (1 in 16 also through `%`, std.format and std.mod from source); every string of length <= 4 over `%(.*0-+ #dsxg)k5` parsed (length <= 3 also formatted in 3 argument modes); argument-count/star/object-mode/wide-field tables; integer conversions of 16 numbers beyond the i64 range x 6 conversions x 10 flag sets x 8 width/precision forms; float precisions 308/309/310/65535 (fixed and `*`); %c of negative / fractional / huge numbers; FLOAT DIGITS: boundary-heavy doubles (powers of two with both neighbours, powers of ten with neighbours and carry cases 9.9999995e k / 9.5e k, subnormals, max finite, -0, exact ties t/2^(p+1) of every precision p in 0..20 and ties (2j+1)*5*10^k of the exponent form with both neighbours, ordinary numbers, random bit patterns and random mantissas at moderate exponents) x e/E/f/F/g/G x 12 width/precision forms (precisions none,0,1,2,3,5,10,15,17,20,40,308) x rotating flag forms through std_format, and Rust's own float formatting `{:.*}` / `{:.*e}` on the same doubles at precisions 0..21,30,50,100,308 (some at 400,767,1074,1075,1100) against the Lean exact reference (op fmt.digits: validates the assumption RustFmtExact); seeded random format strings; the parse of every enumerated string is compared field by field (Debug text of the elements); REACH: 41 bare right operands of every type (0, -0, 0.0, -0.0, (1-1), (0*-1), ints, negative, fractional, huge, strings, booleans, null, arrays, objects) x 42 format strings (two longer than 100 bytes) + seeded random code x value, each through eleven entry points that must agree: std_format(f, x), `f % x`, std.format(f, x), std.mod(f, x), `local f.., v..; f % v`, `(f) % (x)`, `(f1 + f2) % x` and the first four with x wrapped as [x]"
 	});
 	cx.w.finish(meta, &opts.out);
 }
